@@ -149,9 +149,12 @@ func (d *Dynamic) Draw(ctx vxfw.DrawContext) (vxfw.Surface, error) {
 		if err != nil {
 			return s, err
 		}
-		// Get the last child so we can set our accumulated height
-		last := s.Children[len(s.Children)-1]
-		ah = last.Origin.Row + int(last.Surface.Size.Height)
+		// Get the last child so we can set our accumulated height. We
+		// have none if the list shrunk below the top widget
+		if len(s.Children) > 0 {
+			last := s.Children[len(s.Children)-1]
+			ah = last.Origin.Row + int(last.Surface.Size.Height) + d.Gap
+		}
 	}
 
 	var colOffset int
@@ -324,8 +327,9 @@ func (d *Dynamic) insertChildren(ctx vxfw.DrawContext, p *vxfw.Surface, ah int) 
 		if err != nil {
 			return err
 		}
-		// Subtract the height of this surface and add it to the parent
-		ah -= int(s.Size.Height)
+		// Subtract the height of this surface (and the gap below it) and
+		// add it to the parent
+		ah -= int(s.Size.Height) + d.Gap
 		ss := vxfw.NewSubSurface(colOffset, ah, s)
 		p.Children = slices.Insert(p.Children, 0, ss)
 
@@ -347,7 +351,7 @@ func (d *Dynamic) insertChildren(ctx vxfw.DrawContext, p *vxfw.Surface, ah int) 
 		for i, ch := range p.Children {
 			ch.Origin.Row = int(row)
 			p.Children[i] = ch
-			row += ch.Surface.Size.Height
+			row += ch.Surface.Size.Height + uint16(d.Gap)
 		}
 		return nil
 	}
